@@ -272,6 +272,9 @@ def run(ctx):
                     for nrows in (2, 7):
                         xcs.append({"h": h, "total": 14, "nleg": nleg, "nrows": nrows, "rot": (h + nleg) % len(LEGENDS), "times": times,
                                     "tmp": tmp})
+        # long tables (pandas reads in chunks; a trajectory easily has 10^5 frames)
+        for nrows, nleg in ((1500, 3), (1500, 10), (70000, 2)):
+            xcs.append({"h": 7, "total": 20, "nleg": nleg, "nrows": nrows, "rot": nleg, "tmp": tmp})
         if ctx.thorough:
             for h in range(0, 14):
                 for total in (13, 15, 16, 25):
